@@ -3,6 +3,7 @@ package simnet
 import (
 	"io"
 	"net"
+	"sync/atomic"
 	"time"
 
 	"verif/simrt"
@@ -22,6 +23,10 @@ type half struct {
 	window   int  // bytes the reader side buffers before the writer blocks
 	written  int64
 	read     int64
+	// hb carries the one happens-before edge a byte stream really gives: the
+	// bytes a Read returns were written before. It is the only ordering the race
+	// detector sees between the two ends.
+	hb uint32
 }
 
 // Conn is one end of a simulated TCP connection.
@@ -105,11 +110,7 @@ func (c *Conn) Read(p []byte) (int, error) {
 			timer = time.AfterFunc(d, s.Kick)
 		}
 	}
-	t.Park(simrt.OpNetRead, c.id, func() bool {
-		now := time.Now()
-		return c.closed || c.in.rst || c.readable(now) > 0 || (c.in.fin && len(c.in.segs) == 0) ||
-			(!c.rd.IsZero() && !now.Before(c.rd)) || (len(c.in.segs) > 0 && !c.in.segs[0].readyAt.After(now))
-	}, nil)
+	t.Park(simrt.OpNetRead, c.id, c.canRead, nil)
 	if timer != nil {
 		timer.Stop()
 	}
@@ -152,6 +153,7 @@ func (c *Conn) Read(p []byte) (int, error) {
 		}
 		s.Fault("segment")
 	}
+	atomic.LoadUint32(&c.in.hb)
 	s.BkLock()
 	n := 0
 	for n < want && len(c.in.segs) > 0 {
@@ -198,10 +200,8 @@ func (c *Conn) Write(p []byte) (int, error) {
 				timer = time.AfterFunc(d, s.Kick)
 			}
 		}
-		t.Park(simrt.OpNetWrite, c.id, func() bool {
-			return c.closed || c.out.rst || c.out.fin || c.out.buffered < c.out.window || len(p) == 0 ||
-				(!c.wd.IsZero() && !time.Now().Before(c.wd))
-		}, nil)
+		wr := &writeReq{c, len(p) == 0}
+		t.Park(simrt.OpNetWrite, c.id, wr.can, nil)
 		if timer != nil {
 			timer.Stop()
 		}
@@ -243,12 +243,14 @@ func (c *Conn) Write(p []byte) (int, error) {
 			c.out.rst = true
 			c.in.rst = true
 			s.BkUnlock()
+			atomic.AddUint32(&c.out.hb, 1)
 			s.Fault("write_err")
 			s.Kick()
 			return total + k, ErrBrokenPipe
 		}
 		c.appendOut(p[:k])
 		s.BkUnlock()
+		atomic.AddUint32(&c.out.hb, 1)
 		s.Kick()
 		total += k
 		p = p[k:]
@@ -388,3 +390,24 @@ func (c *Conn) Stats() (written, read int64) { return c.out.written, c.in.read }
 //
 //go:norace
 func (c *Conn) PeerClosed() bool { return c.in.fin || c.in.rst }
+
+// enabled-callbacks run on the scheduler goroutine: methods, so //go:norace covers them.
+//
+//go:norace
+func (c *Conn) canRead() bool {
+	now := time.Now()
+	return c.closed || c.in.rst || c.readable(now) > 0 || (c.in.fin && len(c.in.segs) == 0) ||
+		(!c.rd.IsZero() && !now.Before(c.rd)) || (len(c.in.segs) > 0 && !c.in.segs[0].readyAt.After(now))
+}
+
+type writeReq struct {
+	c     *Conn
+	empty bool
+}
+
+//go:norace
+func (w *writeReq) can() bool {
+	c := w.c
+	return c.closed || c.out.rst || c.out.fin || c.out.buffered < c.out.window || w.empty ||
+		(!c.wd.IsZero() && !time.Now().Before(c.wd))
+}
